@@ -27,7 +27,7 @@ const prelude = `(set-option :produce-models true)
 (declare-fun sdiff (Str Str) Int)
 (declare-const str.empty Str)
 (assert (= (slen str.empty) 0))
-(assert (forall ((s Str)) (! (>= (slen s) 0) :pattern ((slen s)))))
+(assert (forall ((s Str)) (! (and (>= (slen s) 0) (<= (slen s) 4611686018427387904)) :pattern ((slen s)))))
 (assert (forall ((s Str) (i Int)) (! (and (<= 0 (sbyte s i)) (<= (sbyte s i) 255)) :pattern ((sbyte s i)))))
 (assert (forall ((s Str) (a Int) (b Int)) (! (=> (and (<= 0 a) (<= a b) (<= b (slen s))) (= (slen (ssub s a b)) (- b a))) :pattern ((ssub s a b)))))
 (assert (forall ((s Str) (a Int) (b Int) (i Int)) (! (=> (and (<= 0 a) (<= a b) (<= b (slen s)) (<= 0 i) (< i (- b a))) (= (sbyte (ssub s a b) i) (sbyte s (+ a i)))) :pattern ((sbyte (ssub s a b) i)))))
